@@ -466,7 +466,7 @@ def _positional_uses_order_free(facts, cg, body, collect_block, depth=0):
         sig = (tt.callee.path or "") + (tt.callee.self_ty or "") + " ".join(tt.callee.args or [])
         if n in ("extend", "append", "collect", "from_iter") and any(k in sig for k in ("BTreeSet", "BTreeMap", "HashSet", "HashMap")):
             continue
-        if n in ("reduce", "max_by", "min_by", "fold", "max_by_key", "min_by_key"):
+        if n in ("reduce", "max_by", "min_by", "fold", "try_fold", "max_by_key", "min_by_key"):
             # a selection by comparison: the closure compares its two arguments
             cmp_ = False
             for cb in [facts.body(p_) for p_ in tt.callee.fnargs]:
